@@ -538,13 +538,19 @@ func (t *fnTrans) lockOp(m Val, acquire bool, key string, pos token.Pos) {
 		}
 		for name := range t.vars {
 			t.cur.m["atlock:"+name] = t.get(t.cur, name)
+			t.cur.m["atlock."+ls.Field+":"+name] = t.get(t.cur, name)
 		}
 		return
 	}
 	// release
 	snap := &State{m: map[string]Term{}}
 	for name := range t.vars {
-		snap.m[name] = t.get(t.cur, "atlock:"+name)
+		// the acquisition of THIS mutex (another mutex may have been taken in between)
+		if _, ok := t.cur.m["atlock."+ls.Field+":"+name]; ok {
+			snap.m[name] = t.get(t.cur, "atlock."+ls.Field+":"+name)
+		} else {
+			snap.m[name] = t.get(t.cur, "atlock:"+name)
+		}
 	}
 	env := mkEnv(t.cur, snap)
 	for _, g := range ls.Ghosts {
@@ -568,6 +574,7 @@ func (t *fnTrans) lockOp(m Val, acquire bool, key string, pos token.Pos) {
 	}
 	for name := range t.vars {
 		t.cur.m["atunlock:"+name] = t.get(t.cur, name)
+		t.cur.m["atunlock."+ls.Field+":"+name] = t.get(t.cur, name)
 	}
 	// after release other goroutines may change the guarded state
 	havocMaps("_ul")
